@@ -48,10 +48,12 @@ LEVEL_NOTE = (
     "each once, with the right addresses/payload/direction); (2) sequence of Management.process calls == frames that are broadcast "
     "(T_Data_Broadcast to 0/0/0) or individually addressed to xknx.current_address, each once; L_Data.con / L_Data.req / M_* / "
     "unparsable frames reach neither; (3) a send that returns normally had an L_Data.con delivered with an event index after its own "
-    "hand-off and before its return; (4) a send with no such confirmation ends with ConfirmationError no later than "
+    "hand-off and before its return; a send for which an L_Data.con (whatever its confirm-error flag, priority, repeat or hop count) was "
+    "delivered after its hand-off and more than 1 ms before hand-off-return + timeout must not fail with ConfirmationError, unless a "
+    "concurrent send re-armed the event between that confirmation and the start of the wait (recorded); (4) a send with no such confirmation ends with ConfirmationError no later than "
     "REQUEST_TO_CONFIRMATION_TIMEOUT virtual seconds after send_cemi returned, and every send ends.  Recorded, not judged: "
-    "T_Data_Tag_Group frames; ConfirmationError although a confirmation arrived after hand-off (lost to a concurrent send's clear() or "
-    "racing the timeout at the same instant); L_Data.con with the error flag; CommunicationError raised by the interface; dispatch of queued "
+    "T_Data_Tag_Group frames; ConfirmationError although a confirmation arrived after hand-off when it was wiped by a concurrent send's "
+    "clear() before the wait began or raced the timeout within 1 ms; CommunicationError raised by the interface; dispatch of queued "
     "telegrams to telegram_received callbacks; plain frames to a group address that has a Data Secure key (discarded by Data Secure: C18)."
 )
 SHARDS = {"quick": 1, "thorough": 16}
@@ -80,10 +82,12 @@ class Monitor:
         self.exp_queue: list[dict] = []
         self.exp_mgmt: list[dict] = []
         self.con_idx: list[int] = []
+        self.con_t: dict[int, float] = {}
         self.cb_incoming = 0
         self.unjudged_tag_group = 0
         self.unjudged_plain_to_keyed = 0
         self.secured_handoffs = 0
+        self.cons_with_error_flag = 0
 
     def ev(self, *item) -> int:
         self.log.append(item)
@@ -117,6 +121,7 @@ class FakeInterface:
     def deliver_con(self, raw: bytes, why: str) -> None:
         i = self.mon.ev("con", why)
         self.mon.con_idx.append(i)
+        self.mon.con_t[i] = asyncio.get_running_loop().time()
         self.cemi_received(raw)
 
     async def send_cemi(self, cemi: CEMIFrame) -> None:
@@ -133,9 +138,13 @@ class FakeInterface:
         if isinstance(cemi.data.payload, SecureAPDU):
             mon.secured_handoffs += 1
         con_raw = bytes((G.L_DATA_CON,)) + cemi.to_knx()[1:]
-        if beh.get("con_error"):
-            h = 2 + con_raw[1]
-            con_raw = con_raw[:h] + bytes((con_raw[h] | 0x01,)) + con_raw[h + 1:]
+        # the gateway's confirmation: same frame, with the confirm-error flag / priority / repeat / hop count it chooses
+        h = 2 + con_raw[1]
+        c1 = (con_raw[h] | (0x01 if beh.get("con_error") else 0)) ^ beh.get("con_c1_xor", 0)
+        c2 = con_raw[h + 1] if "con_hop" not in beh else (con_raw[h + 1] & 0x8F) | (beh["con_hop"] << 4)
+        con_raw = con_raw[:h] + bytes((c1, c2)) + con_raw[h + 2:]
+        if c1 & 0x01:
+            mon.cons_with_error_flag += 1
         kind = beh["con"]
         if kind == "during":
             loop.call_later(beh["con_delay"], self.deliver_con, con_raw, "gateway-during-send_cemi")
@@ -271,6 +280,8 @@ def gen_incoming(rng: random.Random, own: IndividualAddress, ds: bool = False) -
                        "con_group", "req_group", "mprop", "unknown_code", "malformed", "own_ctrl", "foreign_ctrl", "foreign0"))
     src = rng.choice((0x1101, 0x1203, 0xFFFF, 0x0001))
     c1 = rng.choice((0xBC, 0xB0, 0x94, 0xBC, 0x3C))
+    if kind in ("con", "con_group") and rng.random() < 0.4:
+        c1 |= 0x01  # confirmation with the error flag: still a confirmation frame
     hop = rng.randrange(8) << 4
     payload, tpdu = _apdu_for(rng)
     exp = {"kind": kind, "queue": None, "mgmt": None}
@@ -341,8 +352,12 @@ def gen_send(rng: random.Random, own: IndividualAddress) -> dict:
             beh["con_delay"] = sus / 2
     if con == "after":
         beh["con_delay"] = rng.choice((0, 0, 0.01, 1.0, 2.999, 3.0, 3.001, 5.0))
-    if rng.random() < 0.08:
+    if rng.random() < 0.3:
         beh["con_error"] = True
+    if rng.random() < 0.3:
+        beh["con_c1_xor"] = rng.choice((0x20, 0x04, 0x08, 0x0C, 0x2C, 0x02))  # repeat / priority / ack bits differ from the request
+    if rng.random() < 0.3:
+        beh["con_hop"] = rng.randrange(8)
     if rng.random() < 0.05:
         beh["raise"] = True
     return {"kind": kind, "path": path, "at": rng.choice((0, 0, 0, 0.001, 0.05, 1.0, 2.0, 3.0, 4.5)), "beh": beh,
@@ -392,10 +407,14 @@ def _build_secure_frames(ds: dict, incoming: list[dict]) -> None:
 
 
 INJECT_KINDS = ("con", "con", "con", "req", "ind_group", "mprop", "garbage", "con_short")
+CON_VARIANTS = (dict(), dict(ctrl1=0xBD), dict(ctrl1=0x91, ctrl2=0x90), dict(ctrl1=0xBC, ctrl2=0xF0), dict(ctrl1=0x3D, ctrl2=0x80))
 
 
 def inject_frame(kind: str) -> dict:
     """Frame injected at loop iteration k.  Only 'con' is a confirmation."""
+    if kind.startswith("con_v"):
+        return {"raw": G.l_data(G.L_DATA_CON, src=0x1105, dst=0x0901, tpdu=b"\x00\x80", **CON_VARIANTS[int(kind[5:])]), "is_con": True,
+                "exp": {"kind": "con", "queue": None, "mgmt": None}}
     if kind == "con":
         return {"raw": G.l_data(G.L_DATA_CON, src=0x1105, dst=0x0901, tpdu=b"\x00\x80"), "is_con": True,
                 "exp": {"kind": "con", "queue": None, "mgmt": None}}
@@ -434,7 +453,12 @@ def run_history(hist: dict, inject_k: int | None = None, inject_kind: str = "con
         elif exp.get("unjudged"):
             mon.unjudged_tag_group += 1
         if frame.get("is_con") or exp["kind"] in ("con", "con_group"):
-            mon.con_idx.append(mon.ev("con", why))
+            i = mon.ev("con", why)
+            mon.con_idx.append(i)
+            mon.con_t[i] = loop.time()
+            raw_ = frame["raw"]
+            if raw_[2 + raw_[1]] & 0x01:
+                mon.cons_with_error_flag += 1
         else:
             mon.ev("rx", exp["kind"], why)
         if exp.get("queue"):
@@ -656,7 +680,24 @@ def judge(ctx, hist: dict, res: dict, tag: dict) -> None:
                 ctx.extra["confirmation_error_delay_min"] = min(ctx.extra.get("confirmation_error_delay_min", 99.0), round(delay, 6))
                 ctx.extra["confirmation_error_delay_max"] = max(ctx.extra.get("confirmation_error_delay_max", 0.0), round(delay, 6))
             if after:
-                ctx.count("confirmation_error_despite_confirmation_after_handoff_unjudged")
+                # judged when the confirmation clearly preceded the deadline and no concurrent send re-armed the event
+                # (its clear() right before its own hand-off) between the confirmation and the start of this send's wait
+                deadline = rec["done_t"] + REQUEST_TO_CONFIRMATION_TIMEOUT
+                other_handoffs = [o["handoff_idx"] for o in mon.sends if o is not rec and o["handoff_idx"] is not None]
+                clear_cut = [i for i in after if mon.con_t.get(i, deadline) < deadline - 1e-3
+                             and not any(i < j < rec["done_idx"] for j in other_handoffs)]
+                if clear_cut:
+                    raw_flag = "with-error-flag" if rec.get("behaviour", {}).get("con_error") else "frame"
+                    ctx.violation(f"send-fails-with-ConfirmationError-although-confirmation-{raw_flag}-arrived-after-handoff",
+                                  dict(swit, confirmation_events=clear_cut, deadline=deadline,
+                                       confirmation_times=[mon.con_t[i] for i in clear_cut]),
+                                  f"send {rec['sid']} was handed off at event {rec['handoff_idx']}, an L_Data.con was delivered at event "
+                                  f"{clear_cut[0]} ({deadline - mon.con_t[clear_cut[0]]:.3f} s before the deadline), yet the send "
+                                  f"failed with ConfirmationError; events: {wit['events']}")
+                elif any(mon.con_t.get(i, deadline) < deadline - 1e-3 for i in after):
+                    ctx.count("confirmation_wiped_by_concurrent_send_before_wait_unjudged")
+                else:
+                    ctx.count("confirmation_racing_the_timeout_unjudged")
             else:
                 ctx.count("confirmation_error_as_required")
         elif rec.get("iface_raised") and out == "CommunicationError":
@@ -667,6 +708,7 @@ def judge(ctx, hist: dict, res: dict, tag: dict) -> None:
         else:
             ctx.count("send_other_exception_with_confirmation_unjudged")
     ctx.count("confirmation_frames_delivered", len(mon.con_idx))
+    ctx.count("confirmation_frames_with_error_flag", mon.cons_with_error_flag)
     for e in res.get("loop_exceptions", []):
         ctx.count("loop_exception_handler_records_diagnostic")
     ctx.distinct(_event_string(mon))
@@ -682,7 +724,7 @@ def explore(ctx, hist: dict, hno: int) -> None:
     ctx.count("baseline_iterations", n)
     step = 1
     for k in range(0, n, step):
-        kinds = ["con"]
+        kinds = ["con" if (k + hno) % 2 else f"con_v{(k // 2 + hno) % len(CON_VARIANTS)}"]
         if (k + hno) % 3 == 0:
             kinds.append(INJECT_KINDS[3 + (k // 3 + hno) % (len(INJECT_KINDS) - 3)])
         for kind in kinds:
@@ -692,7 +734,7 @@ def explore(ctx, hist: dict, hno: int) -> None:
                 ctx.count("injection_index_beyond_run")
                 continue
             ctx.count("injections")
-            ctx.count(f"injected_{kind}")
+            ctx.count("injected_con" if kind.startswith("con_v") else f"injected_{kind}")
             judge(ctx, hist, res, {"k": k, "kind": kind, "frac": frac})
 
 
@@ -707,7 +749,7 @@ def run(ctx):
                 "confirmation_arrived_during_send_cemi", "frames_expected_in_queue", "frames_expected_at_management",
                 "injected_con", "injected_req", "histories_with_data_secure", "histories_without_data_secure",
                 "handoffs_of_secured_frames", "secured_group_frames_received", "sends_observed_with_data_secure",
-                "histories_with_current_address_unset", "histories_with_rate_limit")
+                "histories_with_current_address_unset", "histories_with_rate_limit", "confirmation_frames_with_error_flag")
     rng = random.Random(f"C14/{ctx.seed}")
     n_hist = ctx.scale(300, 6400)
     with observers():
